@@ -96,6 +96,14 @@ const OFF: [f64; 6] = [2.0, 3.0, 5.0, 11.0, 7.0, 4.0];
 /// Generic valuation: distinct positive integers within an array, different progressions for
 /// different operands (`salt`), a few deterministic variants.
 pub fn vals(n: usize, salt: usize, variant: u64) -> Vec<f64> {
+    // variants 3 and 4 are degenerate on purpose: value-dependent shortcuts ("all elements equal",
+    // "all zero") are a realistic kind of optimisation
+    if variant == 3 {
+        return vec![2.0 + (salt % 3) as f64; n];
+    }
+    if variant == 4 {
+        return vec![0.0; n];
+    }
     let s = salt % 6;
     (0..n)
         .map(|i| {
@@ -132,4 +140,10 @@ pub fn vals_small(n: usize, salt: usize, variant: u64) -> Vec<f64> {
 
 pub fn fmt_dims(d: &[usize]) -> String {
     format!("{:?}", d).replace(' ', "")
+}
+
+/// a few larger shapes (long last dimension, more elements than any lane width or block size a
+/// fast path is likely to use), added sparsely to the exhaustive small spaces
+pub fn long_shapes() -> Vec<Vec<usize>> {
+    vec![vec![5], vec![8], vec![9], vec![17], vec![33], vec![2, 9], vec![3, 1, 8], vec![2, 2, 17], vec![1, 16]]
 }
